@@ -104,8 +104,8 @@ def _eig_lanczos(A, k=2, which="LM", v0=None, alg=None, **kw):
 
 
 @reg("svd_lanczos", "keyed")
-def _svd_lanczos(A, k=2, which="LM", v0=None, **kw):
-    return _lazy_import("cola.linalg.svd.svd").svd(A, k, which, cl.Lanczos(start_vector=v0, **kw))
+def _svd_lanczos(A, k=2, which="LM", v0=None, alg=None, **kw):
+    return _lazy_import("cola.linalg.svd.svd").svd(A, k, which, alg if alg is not None else cl.Lanczos(start_vector=v0, **kw))
 
 
 @reg("arnoldi", "keyed")
@@ -195,8 +195,8 @@ def _eig_lobpcg(A, k=2, which="LM", alg=None, **kw):
 
 
 @reg("svd_lobpcg", "keyed")
-def _svd_lobpcg(A, k=2, which="LM", **kw):
-    return _lazy_import("cola.linalg.svd.svd").svd(A, k, which, LOBPCG(**kw))
+def _svd_lobpcg(A, k=2, which="LM", alg=None, **kw):
+    return _lazy_import("cola.linalg.svd.svd").svd(A, k, which, alg if alg is not None else LOBPCG(**kw))
 
 
 @reg("logdet_lh", "keyed", "shim")
@@ -206,13 +206,21 @@ def _logdet_lh(A, lkw=None, hkw=None, lalg=None, halg=None):
 
 
 @reg("slogdet_lh", "keyed", "shim")
-def _slogdet_lh(A, lkw=None, hkw=None):
-    return cl.slogdet(A, cl.Lanczos(**(lkw or {})), cl.Hutch(**(hkw or {})))
+def _slogdet_lh(A, lkw=None, hkw=None, lalg=None, halg=None):
+    return cl.slogdet(A, lalg if lalg is not None else cl.Lanczos(**(lkw or {})),
+                      halg if halg is not None else cl.Hutch(**(hkw or {})))
 
 
 @reg("slogdet_ah", "keyed", "shim")
-def _slogdet_ah(A, akw=None, hkw=None):
-    return cl.slogdet(A, cl.Arnoldi(**(akw or {})), cl.Hutch(**(hkw or {})))
+def _slogdet_ah(A, akw=None, hkw=None, aalg=None, halg=None):
+    return cl.slogdet(A, aalg if aalg is not None else cl.Arnoldi(**(akw or {})),
+                      halg if halg is not None else cl.Hutch(**(hkw or {})))
+
+
+@reg("alg_call", "keyed")
+def _alg_call(A, alg):
+    """The algorithm object applied directly: Lanczos(...)(A), Arnoldi(...)(A), PowerIteration(...)(A)"""
+    return alg(A)
 
 
 # ============================================================ deterministic actions (C18)
